@@ -58,9 +58,29 @@ Theorem C10_check_ok_iff_text : forall sys bs, DecodedRf bs ->
 Proof. exact check_ok_iff_text. Qed.
 Print Assumptions C10_check_ok_iff_text.
 
+(* ... and WITHOUT extra hypothesis for blocks as get_block decodes them: the decoded RF time axis
+   (sequence.py rf_from_lib_data: regular half-raster grid with shape_dur = n*raster, or explicit times
+   with shape_dur = ceil((t[-1] - eps)/raster)*raster) always satisfies t[-1] <= shape_dur + eps *)
+Theorem C10_decoded_rf_invariant : forall raster sh, 0 < raster ->
+  decode_rf_tlast raster sh <= decode_rf_shape_dur raster sh + spec_eps.
+Proof. exact decoded_rf_invariant. Qed.
+Print Assumptions C10_decoded_rf_invariant.
+
+Theorem C10_check_ok_iff_text_decoded : forall sys bs, 0 < s_rf_raster sys -> DecodedBy sys bs ->
+  (check_timing sys bs = [] <-> TimingValid_text raster_on_stored sys bs).
+Proof. exact check_ok_iff_text_decoded. Qed.
+Print Assumptions C10_check_ok_iff_text_decoded.
+
+(* the same bound for an RF event as the makers return it: premises are the conclusions of
+   C13_sample_times_centres (t_last == shape_dur - dwell/2) in Props/C13.v *)
+Theorem C10_rf_maker_grid_invariant : forall tlast shape_dur dwell : Q,
+  0 <= dwell -> tlast == shape_dur - dwell / (2 # 1) -> tlast <= shape_dur + spec_eps.
+Proof. exact rf_maker_grid_invariant. Qed.
+Print Assumptions C10_rf_maker_grid_invariant.
+
 (* structural fact: the explicit ring-down test (on the last sample t[-1]) never fires alone *)
 Theorem C10_ringdown_implies_mismatch : forall sys b r,
-  b_rf b = Some r -> e_kind r = KRf -> e_tlast r <= e_shape_dur r ->
+  b_rf b = Some r -> e_kind r = KRf -> e_tlast r <= e_shape_dur r + spec_eps ->
   In (b_id b, SRf, A_duration, RF_RINGDOWN_TIME) (check_block sys b) ->
   In (b_id b, SBlock, A_duration, BLOCK_DURATION_MISMATCH) (check_block sys b).
 Proof. exact ringdown_error_implies_mismatch. Qed.
